@@ -334,10 +334,12 @@ def selectOk (env : Env) (sub : Query → Res) (gid : GroupId) : List (Rec × Na
       | none => .done .bogus none
     | _ => selectOk env sub gid rest
 
-/-- the RRSIGs that are tried: the signer must be the owner or an ancestor of the owner (fix 207ce2a), the RRSIG
+/-- the RRSIGs that are tried: the signer must be the owner or an ancestor of the owner (fix 207ce2a) — for a DS RRset a proper ancestor (fix 4f49cf9) —, the RRSIG
 cap, the cycle break -/
-def sigCands (q : Query) (owner : DName) (sigs : List Rec) : List (Rec × Nat) :=
+def sigCands (q : Query) (owner : DName) (rtype : Nat) (sigs : List Rec) : List (Rec × Nat) :=
   sigs.zipIdx.filter fun si =>
+    -- a DS RRset can only be signed by a proper ancestor of its owner (fix 4f49cf9)
+    !(rtype == tDS && !owner.isRoot && si.1.signer == owner) &&
     zoneOf si.1.signer owner &&
       (si.2 ≤ Generated.MAX_RRSIGS_PER_RRSET && !(si.1.signer == q.name && q.qtype == tDNSKEY))
 
@@ -351,7 +353,7 @@ def verifyDefaultRrset (env : Env) (sub : Query → Res) (q : Query) (gid : Grou
       | .ok => .done .bogus none
     else .done .bogus none
   else
-    selectOk env sub gid (sigCands q gid.name sigs)
+    selectOk env sub gid (sigCands q gid.name gid.rtype sigs)
 
 /-! ## `verify_rrsets` + `update_rrset` -/
 
